@@ -147,19 +147,20 @@ theorem remove_refines (s : LC) (id : Nat) (hn : (abs s).live.Nodup) :
 theorem add_shape (s : LC) (hw : WF s) (conn : Nat) :
     add s._MAX_CONNECTION_SEQ s conn =
       if s._connections.length ≥ s._MAX_CONNECTION_SEQ then none
-      else match probe s._MAX_CONNECTION_SEQ ((s.server_id % s._MAX_SERVER_ID) <<< s._CONNECTION_ID_BITS) (keys s).reverse
+      else match probe s._MAX_CONNECTION_SEQ ((s.server_id % s._MAX_SERVER_ID) * 2 ^ s._CONNECTION_ID_BITS) (keys s).reverse
                 s._MAX_CONNECTION_SEQ s._connection_seq.value with
         | none => none
         | some (id, sq') => some (id, ({ ({ s with _connection_seq := { s._connection_seq with value := sq' } } : LC) with
                                               _connections := Mimic.Py.dictSet s._connections id conn } : LC)) := by
   unfold add new_connection_id
+  simp only [Nat.shiftLeft_eq]
   by_cases hfull : s._connections.length ≥ s._MAX_CONNECTION_SEQ
   · simp [hfull]
   · simp only [hfull, decide_false, Bool.false_eq_true, if_false]
     rw [seq_next_eq _ s._MAX_CONNECTION_SEQ (by simpa [WF] using hw)]
     simp only
-    rw [loop_probe s hw ((s.server_id % s._MAX_SERVER_ID) <<< s._CONNECTION_ID_BITS) s._MAX_CONNECTION_SEQ s._connection_seq.value]
-    cases probe s._MAX_CONNECTION_SEQ ((s.server_id % s._MAX_SERVER_ID) <<< s._CONNECTION_ID_BITS) (keys s).reverse
+    rw [loop_probe s hw ((s.server_id % s._MAX_SERVER_ID) * 2 ^ s._CONNECTION_ID_BITS) s._MAX_CONNECTION_SEQ s._connection_seq.value]
+    cases probe s._MAX_CONNECTION_SEQ ((s.server_id % s._MAX_SERVER_ID) * 2 ^ s._CONNECTION_ID_BITS) (keys s).reverse
         s._MAX_CONNECTION_SEQ s._connection_seq.value with
     | none => rfl
     | some q => rfl
